@@ -11166,8 +11166,15 @@ where
 			&& self.pending_splice.is_none()
 			&& self.funding.channel_transaction_parameters.splice_parent_funding_txid.is_none()
 		{
-			// We should never have to worry about MonitorUpdateInProgress resending ChannelReady
-			self.get_channel_ready(logger)
+			if self.context.monitor_pending_channel_ready {
+				// Our `channel_ready` has not been released yet because the initial `ChannelMonitor`
+				// persistence is still pending (we can already be in the `ChannelReady` state if the
+				// peer's `channel_ready` arrived in the meantime). It will be sent once the monitor
+				// update completes, so do not "retransmit" it early here.
+				None
+			} else {
+				self.get_channel_ready(logger)
+			}
 		} else { None };
 
 		// A receiving node:
